@@ -11381,7 +11381,7 @@ class TensorDictBase(MutableMapping):
             return self._fast_apply(lambda x: x.clamp(min, max))
         if is_tc_min and is_tc_max:
             result = self._fast_apply(
-                lambda x, y, low, high: x.clamp(low, high, out=y),
+                lambda x, y, low, high: torch.clamp(x, low, high, out=y),
                 out,
                 min,
                 max,
@@ -11389,7 +11389,7 @@ class TensorDictBase(MutableMapping):
             )
         else:
             result = self._fast_apply(
-                lambda x, y: x.clamp(min, max, out=y), out, default=None
+                lambda x, y: torch.clamp(x, min, max, out=y), out, default=None
             )
         with out.unlock_() if out.is_locked else contextlib.nullcontext():
             return out.update(result)
